@@ -258,7 +258,7 @@ pub struct RawSynth {
     pub flip: bool,
 }
 
-pub const N_PROFILES: u8 = 8;
+pub const N_PROFILES: u8 = 9;
 
 pub fn raw_synth() -> impl Strategy<Value = RawSynth> {
     raw_synth_profiles(0, N_PROFILES)
@@ -294,7 +294,9 @@ fn kind_for(profile: u8, k: u8, like: Kind) -> Kind {
         // 6 mating nets: queens and rooks around bare-ish kings
         6 => &[Kind::Queen, Kind::Rook, Kind::Queen, Kind::Rook, Kind::Knight, Kind::Bishop, Kind::Pawn],
         // 7 en-passant exposure skeleton plus a few bystanders
-        _ => &[Kind::Pawn, Kind::Knight, Kind::Bishop, Kind::Pawn, Kind::Rook, Kind::Queen, Kind::Pawn],
+        7 => &[Kind::Pawn, Kind::Knight, Kind::Bishop, Kind::Pawn, Kind::Rook, Kind::Queen, Kind::Pawn],
+        // 8 promotion captures: pawns on the 7th / 2nd rank next to enemy pieces on the promotion rank
+        _ => &[Kind::Rook, Kind::Queen, Kind::Knight, Kind::Bishop, Kind::Pawn, Kind::Rook],
     };
     table[pick(k as u32, 8, table.len())]
 }
@@ -308,7 +310,8 @@ fn max_pieces(profile: u8) -> usize {
         4 => 10,
         5 => 12,
         6 => 5,
-        _ => 6,
+        7 => 6,
+        _ => 5,
     }
 }
 
@@ -385,6 +388,26 @@ pub fn synth(raw: &RawSynth, domain: ClockDomain) -> Pos {
         for &(s, c, k) in pieces {
             if p.board[s as usize].is_none() {
                 p.board[s as usize] = Some((c, k));
+            }
+        }
+    }
+    if profile == 8 {
+        // pawns about to promote, with enemy pieces they can capture on the promotion rank
+        for (j, &(k, c, sr)) in raw.pieces.iter().take(1 + (raw.wk % 3) as usize).enumerate() {
+            let white = (c as usize + j) % 2 == 0;
+            let f = (sr % 8) as i32;
+            let (pawn_rank, promo_rank, us, them) = if white { (6, 7, Color::White, Color::Black) } else { (1, 0, Color::Black, Color::White) };
+            let target_kind = [Kind::Rook, Kind::Queen, Kind::Knight, Kind::Bishop][(k % 4) as usize];
+            let tf = if (k / 4) % 2 == 0 { f + 1 } else { f - 1 };
+            if p.board[sq(f, pawn_rank) as usize].is_none() {
+                p.board[sq(f, pawn_rank) as usize] = Some((us, Kind::Pawn));
+            }
+            if (0..8).contains(&tf) && p.board[sq(tf, promo_rank) as usize].is_none() {
+                p.board[sq(tf, promo_rank) as usize] = Some((them, target_kind));
+            }
+            // sometimes the square straight ahead is blocked, sometimes free
+            if (k / 8) % 3 == 0 && p.board[sq(f, promo_rank) as usize].is_none() {
+                p.board[sq(f, promo_rank) as usize] = Some((them, Kind::Knight));
             }
         }
     }
